@@ -19,6 +19,13 @@ CLAIMED = {
             "3-byte strings in thorough) and exhaustive on the code over the same finite tables, with TLC as the judge. "
             "The domain is finite, so exhaustive enumeration is the right level.",
             "DESIGN.md 8 (C16), 5.3", TB),
+    "C17": ("model_checking",
+            "TLA+ spec ZvtEncoding checked by TLC (u8/u16/all tags exhaustively, boundaries of wide integers, BCD nibble classes as states); "
+            "tables of the real encoders/decoders (debug and release build) validated row by row by TLC",
+            "Exhaustive where the domain is small (u8, u16, 65,536 tags x 2 encodings, all 0-2 byte inputs of the parsers, 0..9999 receipts), "
+            "boundary + seeded random on u32/u64/usize, hex, UTF-8 and the calendar; the reference is independent of the code (decimal "
+            "arithmetic in TLA+, CP437 table from Python), debug/release parity is compared file by file.",
+            "DESIGN.md 8 (C17), 5.3", TB),
 }
 
 PENDING = {}
